@@ -49,6 +49,13 @@ type FuncCfg struct {
 //	             `coq obj args…` evaluates to obj' (no results) or (obj', results…);
 //	             obj must be an assignable path and is assigned back
 //	kind clock   reading of the clock: becomes a parameter `now…` of the function
+//	kind wait    blocking wait on a clock object that is kept in the state (its Go type is mapped
+//	             to a Coq type by "types"): the statement `x.Sleep(d)` or `<-x.After(d)` becomes
+//	             `coq x d nowK`, which evaluates to x' and is assigned back to x; nowK is one more
+//	             reading of the clock (a parameter, in source order like every reading): the
+//	             instant the wait starts.  What the wait means (e.g. a log of (start, duration)
+//	             and "every later reading >= start + max(d,0)") is the configuration's `coq`
+//	             function, hand-written in a file named by "requires".  Only as a statement.
 //	kind id      returns its receiver unchanged (t.UTC())
 //	kind lock    mutex operation: dropped, recorded as atomic-section note
 //	kind skip    logging: dropped (arguments must be free of effects)
